@@ -19,6 +19,7 @@ from fractions import Fraction
 
 import numpy as np
 
+from . import c11_more as M
 from . import c11_pi as P
 from .c11_pi import call, dtm, sec, xv
 from .common import fr, same, unfr
@@ -621,5 +622,12 @@ def run(c):
         stream_roundtrip(c, c.n(120, 1500), tmp)
         stream_reader(c, c.n(160, 2000), tmp)
         stream_resize(c, c.n(100, 1200), tmp)
+        M.stream_rewrite(c, c.n(40, 500), tmp, gen_store)
+        M.stream_csv(c, c.n(80, 1000), tmp)
+        M.stream_netcdf(c, c.n(40, 400), tmp)
+        M.stream_param(c, c.n(80, 1000), tmp)
+        M.stream_ids(c, c.n(80, 1000), tmp)
+        if not os.environ.get("VERIF_NO_PROBES"):  # development switch only
+            M.probes(c, tmp)
     finally:
         shutil.rmtree(tmp, ignore_errors=True)
